@@ -373,8 +373,8 @@ macro_rules! txin {
 //@begin prop=C01 tier=quick secp=1 mem=12 timeout=2400 desc="TxIn decode->encode exact per layout class (issuance flag, script length, amount/keys class), all truncations; flag bits vs 0xffffffff index; null-null issuance rejected" unsat_ok="all-ones index"
 txin!(txin_plain_s0, 0, 0, 1, 1, 46);
 //@end
-//@begin prop=C01 tier=thorough secp=1 mem=44 timeout=5400 desc="TxIn decode->encode exact, issuance layout classes (incl. null-null issuance rejected)" unsat_ok="all-ones index"
-txin!(txin_plain_s2, 0, 2, 1, 1, 48);
+// NOT REGISTERED (out of memory at 20 GB; at 44 GB no result within the validation window)
+// begin desc="TxIn decode->encode exact, issuance layout classes (incl. null-null issuance rejected)" unsat_ok="all-ones index"
 txin!(txin_iss_9_1, 1, 1, 9, 1, 122);
 txin!(txin_iss_1_9, 1, 0, 1, 9, 120);
 txin!(txin_iss_1_1, 1, 0, 1, 1, 112);
@@ -382,6 +382,9 @@ txin!(txin_iss_33_9, 1, 0, 33, 9, 152);
 txin!(txin_iss_9_33, 1, 0, 9, 33, 152);
 txin!(txin_iss_33_33, 1, 1, 33, 33, 178);
 txin!(txin_iss_9_9, 1, 0, 9, 9, 128);
+// end
+//@begin prop=C01 tier=thorough secp=1 mem=12 timeout=3000 desc="TxIn decode->encode exact, no issuance, 2-byte script" unsat_ok="all-ones index"
+txin!(txin_plain_s2, 0, 2, 1, 1, 48);
 //@end
 
 
